@@ -115,9 +115,11 @@ const (
 	c04Abort
 	c04MoveNeo
 	c04Vote
+	c04CallT  // a call node with T set travels under this tag
+	c04Update // set-up only: ContractManagement.update(nef, manifest) of the executing contract
 )
 
-var c04OpNames = []string{"skip", "put", "del", "notify", "notifyval", "notifyfee", "move", "setfee", "seq", "call", "try", "throw", "abort", "moveneo", "vote"}
+var c04OpNames = []string{"skip", "put", "del", "notify", "notifyval", "notifyfee", "move", "setfee", "seq", "call", "try", "throw", "abort", "moveneo", "vote", "callt", "update"}
 
 // c04Node is one node of a call tree. JSON form is what replay files carry.
 //
@@ -130,6 +132,8 @@ type c04Node struct {
 	V     int        `json:"v,omitempty"`
 	C     int        `json:"c,omitempty"`     // call: callee contract; move: recipient account
 	Flags int        `json:"flags,omitempty"` // call: requested call flags
+	T     bool       `json:"t,omitempty"`     // call: through a method token of the calling contract (CALLT) instead of System.Contract.Call
+	Raw   [][]byte   `json:"-"`               // update: nef, manifest
 	Ops   []*c04Node `json:"ops,omitempty"`   // seq
 	Body  *c04Node   `json:"body,omitempty"`  // call body / try body / move callback
 	Catch *c04Node   `json:"catch,omitempty"`
@@ -210,8 +214,13 @@ func (n *c04Node) coq() string {
 		}
 		sb.WriteString(strings.Repeat(")", len(n.Ops)-1))
 		return sb.String()
-	case c04Call:
+	case c04Call, c04CallT:
+		if n.T {
+			return fmt.Sprintf("(CallV true %d %d %s)", n.C, n.Flags, n.Body.coq())
+		}
 		return fmt.Sprintf("(Call %d %d %s)", n.C, n.Flags, n.Body.coq())
+	case c04Update:
+		return "Abort"
 	case c04Try:
 		return fmt.Sprintf("(Try %s %s %s)", n.Body.coq(), opt(n.Catch), opt(n.Fin))
 	case c04Throw:
@@ -285,7 +294,20 @@ func (e *c04Env) pushItem(a *c04Asm, n *c04Node) {
 			e.pushItem(a, n.Ops[i])
 		}
 		cnt = 1 + len(n.Ops)
+	case c04Update:
+		a.pushBytes(n.Raw[1])
+		a.pushBytes(n.Raw[0])
+		cnt = 3
 	case c04Call:
+		if n.T { // [callt, callee index, flags, body]: the interpreter picks the method token (index*16 + flags)
+			e.pushItem(a, n.Body)
+			a.pushInt(int64(n.Flags))
+			a.pushInt(int64(n.C))
+			a.pushInt(int64(c04CallT))
+			a.pushInt(4)
+			a.op(opcode.PACK)
+			return
+		}
 		e.pushItem(a, n.Body)
 		a.pushInt(int64(n.Flags))
 		if n.C < len(e.contracts) {
@@ -326,7 +348,9 @@ func (n *c04Node) entryOK() bool {
 		return true
 	}
 	switch n.tag() {
-	case c04Skip, c04Throw, c04Abort, c04Call:
+	case c04Call:
+		return !n.T // an entry script has no method tokens
+	case c04Skip, c04Throw, c04Abort:
 		return true
 	case c04Seq:
 		for _, o := range n.Ops {
@@ -407,7 +431,7 @@ func (e *c04Env) entryScript(n *c04Node) []byte {
 
 // c04Interpreter assembles the test contract: method run(p) (offset 0, returns Integer) and
 // onNEP17Payment(from, amount, data) (void; runs `data` as a tree when it is not null).
-func c04Interpreter(gas, policy, neo util.Uint160) (script []byte, runOff, payOff int) {
+func c04Interpreter(gas, policy, neo, mgmt util.Uint160) (script []byte, runOff, payOff int) {
 	a := c04NewAsm()
 	item := func(i int) { // p[i]
 		a.op(opcode.LDARG0)
@@ -603,6 +627,42 @@ func c04Interpreter(gas, policy, neo util.Uint160) (script []byte, runOff, payOf
 	item(3)
 	runSub()
 	a.op(opcode.ENDFINALLY)
+
+	// call through a method token: token id = callee index * 16 + requested flags (48 tokens in the NEF)
+	a.label("op_callt")
+	a.op(opcode.DROP)
+	item(1)
+	a.pushInt(16)
+	a.op(opcode.MUL)
+	item(2)
+	a.op(opcode.ADD)
+	for id := 0; id < c04NContracts*16; id++ {
+		a.op(opcode.DUP)
+		a.pushInt(int64(id))
+		a.op(opcode.NUMEQUAL)
+		a.jmp(opcode.JMPIFL, fmt.Sprintf("tok_%d", id))
+	}
+	a.op(opcode.ABORT) // no such contract / flags out of range
+	for id := 0; id < c04NContracts*16; id++ {
+		a.label(fmt.Sprintf("tok_%d", id))
+		a.op(opcode.DROP)
+		item(3)
+		a.op(opcode.CALLT)
+		a.raw(byte(id), byte(id>>8))
+		a.jmp(opcode.JMPL, "ret")
+	}
+
+	a.label("op_update")
+	a.op(opcode.DROP)
+	item(2)
+	item(1)
+	a.pushInt(2)
+	a.op(opcode.PACK)
+	a.pushInt(15)
+	a.pushStr("update")
+	a.pushBytes(mgmt.BytesBE())
+	a.syscall(interopnames.SystemContractCall)
+	a.jmp(opcode.JMPL, "ret")
 
 	a.label("op_throw")
 	a.op(opcode.DROP)
